@@ -20,7 +20,7 @@ C = {
  'C11': ('flatten/unflatten: element (i,j) <-> i*N+j for symbolic contents/indices, same address and extent for & and &mut forms with write-through, ledger for owned forms', ''),
  'C13': ('==, partial_cmp, cmp, lt/le/gt/ge equal the slice results for symbolic u8/i32/f64 (NaN included, also an array compared with itself); recorded Hasher stream equals the slice\'s; Debug output equals the slice\'s under width/precision/sign flags', '{:#?} (alternate) is not covered: CBMC does not terminate on core::fmt\'s PadAdapter; '),
  'C14': ('{:x}/{:X}/{:.*x} through the real core::fmt into a byte sink for symbolic bytes and precision: exactly min(p,2N) characters, character k is the digit of nibble k; with feature faster-hex the dependency is replaced by its assumed contract whose precondition is asserted', 'N > 1024 (chunked strategy) is not reachable with Kani; faster_hex is an assumed contract; '),
- 'C15': ('TryFrom<Vec>/Box<[T]>, try_from_vec, try_from_boxed_slice, into_vec, into_boxed_slice, From, Box IntoIterator/FromIterator, default_boxed, boxed generate: Ok iff len == N, contents in order, block identity for the O(1) conversions, source dropped once on Err, no leak', 'the "far larger than the stack" clause is a resource bound no contract here can state (not claimed); source lengths are concrete {0,N-1,N,N+1}; '),
+ 'C15': ('TryFrom<Vec>/Box<[T]>, try_from_vec, try_from_boxed_slice, into_vec, into_boxed_slice, From, Box IntoIterator/FromIterator, default_boxed, boxed generate: Ok iff len == N, contents in order, block identity for the O(1) conversions, source dropped once on Err, no leak', 'the "far larger than the stack" clause is a resource bound no contract can state: covered only by the bounded stand-in; source lengths are concrete {0,N-1,N,N+1}; '),
  'C16': ('allocator as contracted dependency: every request has size > 0, every block freed once with the size it was requested with (Kani\'s __rust_alloc/__rust_dealloc contracts), CBMC memory-leak check at the end of every alloc harness, allocation failure injected by a contracted stub must end in handle_alloc_error without touching the block', 'heap alignment is not tracked by CBMC; leak on a PANIC path is not observable under panic=abort; '),
  'C17': ('serialize against a recording Serializer (serialize_tuple(N), N elements in order, end, nothing else); deserialize/visit_seq against a scripted Deserializer/SeqAccess with symbolic count, three symbolic size hints and error position: verdict, element order, every read element dropped once, no partial array', 'JSON/bincode round trips are the composition with the formats\' own tuple encoding (external, assumed); '),
  'C18': ('reduced claim: every const fn is free of pointer UB for all symbolic inputs per instantiation (the C02/C10/C01 contracts) and a generated family of const items is accepted by rustc\'s const evaluator and equals the same calls executed at run time under Kani', 'the const-item family is an enumeration (bounded), CTFE == run-time MIR semantics assumed; '),
@@ -51,7 +51,7 @@ for p in props:
         'evidence_file': '/verif/evidence/%s.json' % p, 'replay_cmd_template': './check %s --replay {path}' % p,
         'engine': 'V+K' if v else 'K',
         'level_claimed': {'category': 'proof', 'text': text + ((' ALL-N part (Verus): ' + v) if v else ''), 'design_ref': 'DESIGN.md §5 ' + p},
-        'level_note': NOTE_K + extra + ('BOUNDED STAND-IN (labelled bounded, never counted as proved): native panic injection at every call index / every panicking element for N <= 4 on the unwinding paths no verifier here can execute (standin/src/main.rs); ' if p in ('C04', 'C05', 'C09', 'C16') else '') + ('engine V: extractor rewrite rules and the external_body prelude are trusted (listed in the evidence).' if v else ''),
+        'level_note': NOTE_K + extra + ('BOUNDED STAND-IN (labelled bounded, never counted as proved): native panic injection at every call index / every panicking element for N <= 4 on the unwinding paths no verifier here can execute (standin/src/main.rs); ' if p in ('C04', 'C05', 'C09', 'C16') else ('BOUNDED STAND-IN (labelled bounded, never counted as proved): the boxed constructors and O(1) conversions build / convert a 4 MiB array on a 256 KiB-stack thread (standin/src/main.rs); ' if p == 'C15' else '')) + ('engine V: extractor rewrite rules and the external_body prelude are trusted (listed in the evidence).' if v else ''),
         'technique': TECH_V if v else TECH_K})
     if v:
         m['engines'][1]['serves_properties'].append(p)
